@@ -2343,4 +2343,161 @@ theorem append_no_panic' [Geo V N] (dim3 : Bool) {s rhs : Mesh V N} (h1 : WF s) 
     exact ⟨he.1, he.2, rfl⟩
   · right; rw [hw]; exact ⟨s', rfl, hwf⟩
 
+/-! ## `transform_vertices` -/
+
+/-- what `transform_vertices` needs from exact geometry: the map on normals is additive and the normal / angle data of a
+transformed triangle are the transformed data (an isometry rotates normals and keeps angles) -/
+structure TransformLaws [Geo V N] (fV : V → V) (fN : N → N) : Prop where
+  map_zero : fN (Geo.nzero V) = Geo.nzero V
+  map_add : ∀ x y : N, fN (Geo.nadd V x y) = Geo.nadd V (fN x) (fN y)
+  contrib_map : ∀ a b c : V, (Geo.contrib (fV a) (fV b) (fV c) : Option (N × N × N × N)) =
+    (Geo.contrib a b c).map fun w => (fN w.1, fN w.2.1, fN w.2.2.1, fN w.2.2.2)
+
+def mapC (fV : V → V) (c : V × V × V) : V × V × V := (fV c.1, fV c.2.1, fV c.2.2)
+def mapW (fN : N → N) (w : N × N × N × N) : N × N × N × N := (fN w.1, fN w.2.1, fN w.2.2.1, fN w.2.2.2)
+def mapCs (fN : N → N) (tc : Tri × Option (N × N × N × N)) : Tri × Option (N × N × N × N) := (tc.1, tc.2.map (mapW fN))
+
+theorem triCoords_map (fV : V → V) (vs : List V) (t : Tri) :
+    triCoords (vs.map fV) t = (triCoords vs t).map (mapC fV) := by
+  unfold triCoords
+  simp only [List.getElem?_map]
+  cases vs[t.a]? <;> cases vs[t.b]? <;> cases vs[t.c]? <;> simp [mapC]
+
+theorem allCoords_map (fV : V → V) (vs : List V) (idx : List Tri) :
+    allCoords (vs.map fV) idx = (allCoords vs idx).map (List.map (mapC fV)) := by
+  induction idx with
+  | nil => rfl
+  | cons t ts ih =>
+    rw [allCoords_cons, allCoords_cons, ih, triCoords_map]
+    cases triCoords vs t <;> cases allCoords vs ts <;> simp
+
+theorem vertexStep_map [Geo V N] {fV : V → V} {fN : N → N} (hl : TransformLaws fV fN) (v : Nat) (acc : N)
+    (tc : Tri × Option (N × N × N × N)) :
+    vertexStep (V := V) v (fN acc) (mapCs fN tc) = fN (vertexStep (V := V) v acc tc) := by
+  obtain ⟨t, c⟩ := tc
+  cases c with
+  | none => rfl
+  | some w =>
+    obtain ⟨n, w1, w2, w3⟩ := w
+    simp only [vertexStep, mapCs, mapW, Option.map_some]
+    by_cases ha : t.a = v <;> by_cases hb : t.b = v <;> by_cases hc : t.c = v <;>
+      simp only [ha, hb, hc, if_true, if_false, hl.map_add]
+
+theorem foldl_vertexStep_map [Geo V N] {fV : V → V} {fN : N → N} (hl : TransformLaws fV fN)
+    (cs : List (Tri × Option (N × N × N × N))) (v : Nat) (acc : N) :
+    (cs.map (mapCs fN)).foldl (vertexStep (V := V) v) (fN acc) = fN (cs.foldl (vertexStep (V := V) v) acc) := by
+  induction cs generalizing acc with
+  | nil => rfl
+  | cons tc ts ih => simp only [List.map_cons, List.foldl_cons, vertexStep_map hl, ih]
+
+theorem edgeAdd_map [Geo V N] {fV : V → V} {fN : N → N} (hl : TransformLaws fV fN) (key : Nat × Nat) (n : N)
+    (acc : Option N) (e : Nat × Nat) :
+    edgeAdd (V := V) key (fN n) (acc.map fN) e = (edgeAdd (V := V) key n acc e).map fN := by
+  unfold edgeAdd
+  split
+  · cases acc <;> simp [hl.map_add, hl.map_zero]
+  · rfl
+
+theorem edgeStep_map [Geo V N] {fV : V → V} {fN : N → N} (hl : TransformLaws fV fN) (key : Nat × Nat) (acc : Option N)
+    (tc : Tri × Option (N × N × N × N)) :
+    edgeStep (V := V) key (acc.map fN) (mapCs fN tc) = (edgeStep (V := V) key acc tc).map fN := by
+  obtain ⟨t, c⟩ := tc
+  cases c with
+  | none => rfl
+  | some w =>
+    obtain ⟨n, w1, w2, w3⟩ := w
+    simp only [edgeStep, mapCs, mapW, Option.map_some]
+    rw [edgeAdd_map hl, edgeAdd_map hl, edgeAdd_map hl]
+
+theorem foldl_edgeStep_map [Geo V N] {fV : V → V} {fN : N → N} (hl : TransformLaws fV fN)
+    (cs : List (Tri × Option (N × N × N × N))) (key : Nat × Nat) (acc : Option N) :
+    (cs.map (mapCs fN)).foldl (edgeStep (V := V) key) (acc.map fN) = (cs.foldl (edgeStep (V := V) key) acc).map fN := by
+  induction cs generalizing acc with
+  | nil => rfl
+  | cons tc ts ih => simp only [List.map_cons, List.foldl_cons, edgeStep_map hl, ih]
+
+/-- pseudo-normals of the transformed vertex buffer = transformed pseudo-normals -/
+theorem computePN_map [Geo V N] {fV : V → V} {fN : N → N} (hl : TransformLaws fV fN) (vs : List V) (idx : List Tri) :
+    (computePN (vs.map fV) idx : Option (PN N)) = (computePN vs idx).map (mapPN fN) := by
+  unfold computePN
+  rw [allCoords_map]
+  cases allCoords vs idx with
+  | none => rfl
+  | some coords =>
+    simp only [Option.map_some, mapPN]
+    have hcs : ((idx.zip (coords.map (mapC fV))).map fun tc => (tc.1, (Geo.contrib tc.2.1 tc.2.2.1 tc.2.2.2 : Option (N × N × N × N)))) =
+        ((idx.zip coords).map fun tc => (tc.1, (Geo.contrib tc.2.1 tc.2.2.1 tc.2.2.2 : Option (N × N × N × N)))).map (mapCs fN) := by
+      have : idx.zip (coords.map (mapC fV)) = (idx.zip coords).map (Prod.map id (mapC fV)) := by
+        rw [← List.zip_map_right]
+      rw [this, List.map_map, List.map_map]
+      apply List.map_congr_left
+      intro tc _
+      obtain ⟨t, pa, pb, pc⟩ := tc
+      simp only [Function.comp, Prod.map, mapC, mapCs, id, hl.contrib_map pa pb pc]
+      rfl
+    rw [hcs]
+    generalize ((idx.zip coords).map fun tc => (tc.1, (Geo.contrib tc.2.1 tc.2.2.1 tc.2.2.2 : Option (N × N × N × N)))) = cs
+    have hget : ∀ (e : Nat × Nat),
+        (edgeAcc (V := V) (cs.map (mapCs fN)) e).getD (Geo.nzero V) = fN ((edgeAcc (V := V) cs e).getD (Geo.nzero V)) := by
+      intro e
+      unfold edgeAcc
+      have := foldl_edgeStep_map hl cs e none
+      simp only [Option.map_none] at this
+      rw [this]
+      cases cs.foldl (edgeStep (V := V) e) none <;> simp [hl.map_zero]
+    congr 2
+    · rw [List.length_map, List.map_map]
+      apply List.map_congr_left
+      intro v _
+      simp only [Function.comp, vertexAcc]
+      rw [← foldl_vertexStep_map hl, hl.map_zero]
+    · rw [List.map_map]
+      apply List.map_congr_left
+      intro t _
+      simp only [Function.comp, hget]
+
+theorem transformVertices_spec {fV : V → V} {fN : N → N} {s s' : Mesh V N} (h : transformVertices fV fN s = some s') :
+    s'.vertices = s.vertices.map fV ∧ s'.indices = s.indices ∧ s'.flags = s.flags ∧ s'.topology = s.topology ∧
+    s'.cc = s.cc ∧ s'.pn = s.pn.map (mapPN fN) ∧ s'.qbvh = allCoords s'.vertices s'.indices ∧ s'.qbvh.isSome = true := by
+  unfold transformVertices at h
+  split at h
+  · cases h
+  · rename_i s1 hs1
+    cases h
+    obtain ⟨⟨a, b, c, d, e⟩, f, g, hh⟩ := rebuildQbvh_spec hs1
+    simp only at a b c d e f g ⊢
+    exact ⟨a, b, f, d, e, by rw [c], by rw [g, a, b], hh⟩
+
+/-- `transform_vertices` preserves coherence (exact geometry) -/
+theorem transformVertices_coherent' [Geo V N] {dim3 : Bool} {fV : V → V} {fN : N → N} (hl : TransformLaws fV fN)
+    {s s' : Mesh V N} (hc : Coherent dim3 s) (h : transformVertices fV fN s = some s') : Coherent dim3 s' := by
+  obtain ⟨ev, ei, ef, et, ec, ep, _, _⟩ := transformVertices_spec h
+  unfold Coherent at hc ⊢
+  simp only [Mesh.derived, derive, Derived.mk.injEq] at hc ⊢
+  obtain ⟨hp, ht, hcc⟩ := hc
+  refine ⟨?_, ?_, ?_⟩
+  · rw [ep, ev, ei, ef, hp]
+    cases (dim3 && s.flags.pnFamily) <;> simp [computePN_map hl]
+  · rw [et, ev, ei, ef, ht]; simp
+  · rw [ec, ev, ei, ef, hcc]; simp
+
+theorem transformVertices_qcoherent' {B : Type} (box : V × V × V → B) {fV : V → V} {fN : N → N} {s s' : Mesh V N}
+    (h : transformVertices fV fN s = some s') : QCoherent box s' := by
+  obtain ⟨_, _, _, _, _, _, hq, hs⟩ := transformVertices_spec h
+  cases hq' : s'.qbvh with
+  | none => rw [hq'] at hs; cases hs
+  | some cs => exact ⟨cs, cs, hq', by rw [← hq, hq'], rfl⟩
+
+theorem transformVertices_no_panic' {fV : V → V} {fN : N → N} {s : Mesh V N} (h : WF s) :
+    ∃ s', transformVertices fV fN s = some s' ∧ WF s' := by
+  unfold transformVertices
+  have hw : WF ({ s with vertices := s.vertices.map fV } : Mesh V N) := by
+    unfold WF at h ⊢; simpa using h
+  obtain ⟨s1, h1⟩ := rebuildQbvh_some hw
+  rw [h1]
+  refine ⟨_, rfl, ?_⟩
+  have := wf_of_same hw (rebuildQbvh_spec h1).1
+  unfold WF at this ⊢
+  exact this
+
 end C11
